@@ -23,9 +23,10 @@ func (c ErrClass) String() string {
 }
 
 type Err struct {
-	Class   ErrClass
-	Payload Value // what a catch handler receives
-	Msg     string
+	Class    ErrClass
+	Payload  Value // what a catch handler receives
+	Msg      string
+	Sentinel string // for EGo: which harness sentinel error must be reachable with errors.Is
 }
 
 func (e *Err) String() string {
@@ -530,7 +531,7 @@ func BaseScope() *Scope {
 			return Nil, e
 		}
 		if a[0].K == KOpaque && a[0].S == "go-error" {
-			return Nil, &Err{Class: EGo, Payload: a[0]}
+			return Nil, &Err{Class: EGo, Payload: a[0], Sentinel: "boom"}
 		}
 		return Nil, thrown(a[0])
 	}))
@@ -545,13 +546,19 @@ func BaseScope() *Scope {
 		if e := arity(a, 0); e != nil {
 			return Nil, e
 		}
-		return Nil, &Err{Class: EGo, Payload: Opaque("go-error"), Msg: "boom"}
+		return Nil, &Err{Class: EGo, Payload: Opaque("go-error"), Msg: "boom", Sentinel: "boom"}
 	}))
 	s.Set("pan!", B("pan!", func(in *Interp, a []Value) (Value, *Err) {
 		if e := arity(a, 0); e != nil {
 			return Nil, e
 		}
-		return Nil, &Err{Class: EGo, Payload: Opaque("go-error"), Msg: "pan"}
+		return Nil, &Err{Class: EGo, Payload: Opaque("go-error"), Msg: "pan", Sentinel: "pan"}
+	}))
+	s.Set("sentinel", B("sentinel", func(in *Interp, a []Value) (Value, *Err) {
+		if e := arity(a, 0); e != nil {
+			return Nil, e
+		}
+		return Opaque("go-error"), nil
 	}))
 	s.Set("pans!", B("pans!", func(in *Interp, a []Value) (Value, *Err) {
 		// a Go builtin panicking with a non-error value: lib/call delivers the value itself
